@@ -1,3 +1,5 @@
+#include <sys/syscall.h>
+#include <unistd.h>
 #include <sys/stat.h>
 // native implementation of the E2 harness API: values come from "name v v v ..." lines on stdin.
 #include "vs.h"
@@ -30,6 +32,10 @@ void vs_file(const char* path, const char* data, unsigned long len) {
    for (char* p = buf + 1; *p; ++p) if (*p == '/') { *p = 0; mkdir(buf, 0700); *p = '/'; }
    FILE* f = fopen(path, "wb"); if (f) { fwrite(data, 1, len, f); fclose(f); }
 }
+static int vs_pid_override = 0;
+void vs_setpid(int pid) { vs_pid_override = pid; }
+// getpid() of the harness and of the library sources linked into this binary; the real one unless vs_setpid() was called
+pid_t getpid(void) { return vs_pid_override ? (pid_t) vs_pid_override : (pid_t) syscall(SYS_getpid); }
 void vs_note(const char* w, uint64_t v) { printf("NOTE %s %llu\n", w, (unsigned long long) v); }
 }
 int main(int argc, char** argv) {
